@@ -865,7 +865,9 @@ static int _yr_re_emit(
     bookmark_1 = yr_arena_get_current_offset(
         emit_context->arena, YR_RE_CODE_SECTION);
 
-    if (instruction_ref.offset - bookmark_1 < INT16_MIN)
+    // Both offsets are unsigned, do the comparison with signed integers. The
+    // difference is zero when no code is emitted for e, as in (a{0})+
+    if ((int64_t) instruction_ref.offset - (int64_t) bookmark_1 < INT16_MIN)
       return ERROR_REGULAR_EXPRESSION_TOO_LARGE;
 
     jmp_offset = (int16_t) (instruction_ref.offset - bookmark_1);
@@ -1051,6 +1053,18 @@ static int _yr_re_emit(
     // the repeat loop. Atoms' forwards_code will point to code in the prolog
     // and backwards_code will point to code in the epilog (or in prolog if
     // epilog wasn't generated, like in n=1,m=1)
+
+    if (re_node->end == 0)
+    {
+      // e{0} and e{0,0} match the empty string only and no code is emitted
+      // for them, but instruction_ref must still point to the place where
+      // the code would have been. The enclosing node uses it, for example, as
+      // the target of the backward jump in (e{0})+.
+      instruction_ref.buffer_id = YR_RE_CODE_SECTION;
+      instruction_ref.offset = yr_arena_get_current_offset(
+          emit_context->arena, YR_RE_CODE_SECTION);
+      break;
+    }
 
     emit_prolog = re_node->start > 0;
     emit_repeat = re_node->end > re_node->start + 1 || re_node->end > 2;
